@@ -650,7 +650,8 @@ pub fn random(a: &Args) -> i32 {
                     }
                     50..=50 => {
                         during.set("cancel");
-                        let r = format!("r{}", rng.gen_range(0..3));
+                        // the empty reason is a reason like any other (an absent wire field): the first one still wins
+                        let r = ["".to_string(), "r1".to_string(), "r2".to_string()][rng.gen_range(0..3)].clone();
                         tc.cancel(r.clone());
                         let mut e = json!({"ev": "cancel", "r": r});
                         e["post"] = jstate_hex(&tc);
